@@ -443,6 +443,10 @@ def main():
     workdir = os.path.join(BUILD, 'run_%s_%d' % (prop, os.getpid()))
     shutil.rmtree(workdir, ignore_errors=True)
     os.makedirs(workdir)
+    # temporary files of the compilers and solvers (cbmc's external-SAT CNF files are 60 MB each and stay behind when a
+    # solver is killed at its timeout) go to the run directory, which is removed at the end of the run
+    os.makedirs(os.path.join(workdir, 'tmp'))
+    os.environ['TMPDIR'] = os.path.join(workdir, 'tmp')
     infra = []
     results = []
     deferred = []
